@@ -199,7 +199,7 @@ def _worker(shard):
         part.seen("nontrivial", repr(params["recipe"]))
         for s_, msg in res:
             part.violation(s_, msg, case, params)
-        if len(part.samples) < 1 and len(params["recipe"][2]) == 2:
+        if len(part.samples) < 1 and params["recipe"][0] != "zoo" and len(params["recipe"][2]) == 2:
             part.sample(params)
     return part
 
@@ -238,6 +238,18 @@ def run(ctx):
                         mids.append(("circuit", (), tuple(lay)))
     ctx.note("directed_family", "%d circuits where a bit and a qubit coexist only mid-circuit" % len(mids))
     items = [("circuit", dict(recipe=r)) for r in uni + mids]
+    # the box zoo: every box constructor x flag variant (bit and qubit versions, daggers) and the
+    # composite subclasses, over bits and qubits
+    from mc import zoo
+    nz = 0
+    for e in zoo.entries("circuit"):
+        v = zoo.value("circuit", e)
+        if not hasattr(v, 'is_mixed') or v.free_symbols or any(o.name not in ("qubit", "bit") for b in v.boxes for t in (b.dom, b.cod) for o in t.objects) \
+                or any(type(b).__name__ in ("Box", "Bubble") or not hasattr(b, "name") for b in v.boxes):
+            continue
+        items.append(("circuit", dict(recipe=("zoo", "circuit", e))))
+        nz += 1
+    ctx.note("zoo", "%d zoo entries" % nz)
     for p in pmap(_worker, build.shards(items, 128)):
         ctx.merge(p)
     ctx.counters["traces_validated_against_impl"] = ctx.counters.get("transitions", 0)
